@@ -229,6 +229,15 @@ func (q *queue) processNACK(seq uint8) (bool, bool) {
 
 	q.cfg.log.Tracef("Received NACK %d", seq)
 
+	// Sequence numbers live in [0, s). A NACK outside of that range can not
+	// refer to any packet of ours and must not be adopted as the new base.
+	if seq >= q.cfg.s {
+		q.cfg.log.Tracef("NACK seq %d is outside of the sequence space. "+
+			"Ignoring.", seq)
+
+		return false, false
+	}
+
 	q.syncer.processNACK(seq)
 
 	// If the NACK is the same as sequenceTop, it probably means that queue
